@@ -221,18 +221,22 @@ Definition row_of (nd : ndarr) (ndims : Z) (i : Z) : list F64 :=
   match n_shape nd with
   | [_] => [nth (Z.to_nat i) (n_data nd) f64_nan]
   | [_; c] => let w := if ndims >? 1 then c else 1 in
-              firstn (Z.to_nat w) (skipn (Z.to_nat (i * c)) (n_data nd))
+              map (fun j => nth (Z.to_nat (i * c + j)) (n_data nd) f64_nan) (ziota w)
   | _ => []
   end.
 
-(** a MultiTag's request for position index i.  The multi-tag pads its units with "none" (never with
-    the dimension's unit).  Positions must be 1-D on one-dimensional data or N x D; extents, when
-    present, must have the shape of the positions - anything else is outside the statement. *)
 Fixpoint zlist_eqb (a b : list Z) : bool :=
   match a, b with
   | [], [] => true
   | x :: xs, y :: ys => (x =? y) && zlist_eqb xs ys
   | _, _ => false
+  end.
+
+(** entries per row the code reads *)
+Definition mtag_width (mt : mtag) (ndims : Z) : Z :=
+  match n_shape (m_pos mt) with
+  | [_; c] => if ndims >? 1 then c else 1
+  | _ => 1
   end.
 
 Definition mtag_shape_ok (mt : mtag) (ndims : Z) : bool :=
@@ -244,7 +248,8 @@ Definition mtag_shape_ok (mt : mtag) (ndims : Z) : bool :=
   match m_ext mt with
   | Some ex => zlist_eqb (n_shape ex) (n_shape (m_pos mt))
   | None => true
-  end.
+  end &&
+  (zlen (m_units mt) <=? mtag_width mt ndims).
 
 Definition mtag_wants (mt : mtag) (a : darray) (i : Z) : list want :=
   let nd := zlen (a_dims a) in
